@@ -54,7 +54,11 @@ class OpenLocked:
 
     def __exit__(self, exc_type, exc_value, traceback):
         try:
-            unlockFile(self.fd)
+            try:
+                # Buffered data must hit the file before the lock is released.
+                self.fd.flush()
+            finally:
+                unlockFile(self.fd)
         finally:
             self.fd.close()
 
